@@ -30,11 +30,11 @@ ASSUMPTIONS = [
 ]
 FLOOR = {"points_compared": {"quick": 60000, "thorough": 1500000}, "fresh_process_runs": {"quick": 60, "thorough": 600},
          "interleaved_schedules": {"quick": 120, "thorough": 2500}, "boxes_compared": {"quick": 800, "thorough": 10000},
-         "sandwich_runs": {"quick": 100, "thorough": 1500}}
+         "sandwich_runs": {"quick": 250, "thorough": 3000}}
 WALL = {"quick": 1200, "thorough": 4 * 3600}
 
 
-FLAT_FAMS = ["const", "zero", "tied", "twoval", "neg", "noisy", "unit", "drift", "large", "incr"]
+FLAT_FAMS = ["const", "zero", "tied", "twoval", "neg", "noisy", "unit", "drift", "quant5", "bern", "const", "zero"]
 
 
 class EntropyGuard:
@@ -80,12 +80,12 @@ def box_fingerprint(box):
 
 
 def gen_cases(rng, tier, count=None):
-    count = count or (700 if tier == "quick" else 9000)
+    count = count or (1100 if tier == "quick" else 12000)
     out = []
     for i in range(count):
         k = i % 10
         algo = C.ALGOS[(i // 10 + i) % len(C.ALGOS)]
-        if k < 3:
+        if k < 2:
             c = TW.safe_case(rng, algo, tier)
             c["kind"] = "repro"
         elif k < 5:
